@@ -13,16 +13,16 @@ Complete list of hypotheses of the `sys_*` theorems and verdict (details at each
 
 | hypothesis | where | verdict |
 |---|---|---|
-| `ExtBlind dec` (SystemReplay:24) | `sys_i1_replayed`, `sys_i1_replayed_active`, `sys_only_ingested`, `sys_ingest_to_read_crash` | DERIVABLE for every decoder that reads only the codec byte and the payload: `cons_sys_extBlind_of_payloadOnly`; instances: C10's record decoder `sysDecC10` (`cons_sys_extBlind_sysDecC10`) and C01's `plainCodec` (`cons_sys_extBlind_plainCodec`, ExtBlind-shaped over `DocMeta`); conversely `ExtBlind`-shape implies C01's `IdxCodec.ExtFree` (`cons_sys_extFree_of_extBlindShape`) |
+| `ExtBlind dec` (SystemReplay:26) | `sys_i1_replayed`, `sys_i1_replayed_active`, `sys_only_ingested`, `sys_ingest_to_read_crash` | DERIVABLE for every decoder that reads only the codec byte and the payload: `cons_sys_extBlind_of_payloadOnly`; instances: C10's record decoder `sysDecC10` (`cons_sys_extBlind_sysDecC10`) and C01's `plainCodec` (`cons_sys_extBlind_plainCodec`, ExtBlind-shaped over `DocMeta`); conversely `ExtBlind`-shape implies C01's `IdxCodec.ExtFree` (`cons_sys_extFree_of_extBlindShape`) |
 | `hcd : cd.ExtFree` | `sys_i1_durable` | derivable for `plainCodec` (model's own `plainCodec_extFree`) and from the ExtBlind shape (above) |
-| `hsame` (SystemReplay:154,195) | `sys_i1_redelivered`, `sys_ingest_to_read_crash` | DERIVABLE when re-deliveries are retries of the same payload (`cons_sys_hsame_of_samePayload`) and from C10's determinism of `metasFor` plus "RIDs do not collide" (`cons_sys_hsame_of_c10`); the latter premise is a genuine environment assumption (`rand.Uint64()`) |
+| `hsame` (SystemReplay:156,198) | `sys_i1_redelivered`, `sys_ingest_to_read_crash` | DERIVABLE when re-deliveries are retries of the same payload (`cons_sys_hsame_of_samePayload`) and from C10's determinism of `metasFor` plus "RIDs do not collide" (`cons_sys_hsame_of_c10`); the latter premise is a genuine environment assumption (`rand.Uint64()`) |
 | `hd : DistinctBulks`, `hs : NonEmptyDocs` | all `sys_i1_*`, `sys_ingest_to_read_*` | FALSE for C10's own output when a document has a `nested` field: `cons_sys_hd_hs_false_for_nested_witness` (reachable: any mapping with a nested type); the chain covers only bulks without nested metas |
 | `hg : GoodIDs` | same | derivable from C10 for parent metas except `id ≠ (0,0)` (time rule / random RID: environment) - not done here |
 | `Quiescent (readC03 U h)` (SystemSealed:163,228) | `sys_i1_sealed`, `Holds.sealed` (also `c17_sealed_once`) | DERIVABLE in general from C17's `run`: `cons_sys_quiescent_of_c17_run` (in SysHypsB.lean) |
-| `Covers names U bytes` (SystemSealed:72) | `sys_sealed_docs`, `sys_i1_sealed`, `Holds.sealed.hcov` | property of the token table `U` the sealer is given - a parameter; satisfiable for any finite token set (`cons_sys_covers_of_tableOf`), so not vacuous; that the *real* table is such a `U` is C03's token-table model, not derivable here |
+| `Covers names U bytes` (SystemSealed:74) | `sys_sealed_docs`, `sys_i1_sealed`, `Holds.sealed.hcov` | property of the token table `U` the sealer is given - a parameter; satisfiable for any finite token set (`cons_sys_covers_of_tableOf`), so not vacuous; that the *real* table is such a `U` is C03's token-table model, not derivable here |
 | `hall : allToken ∈ m.tokens` | `sys_sealed_docs`, `sys_i1_sealed` | derivable from C10 (`SV.BulkIndex.docMetas_shape` + `cons_allToken_bulkindex_eq_collector`): `cons_sys_allToken_of_c10` |
 | `hq`-side numeric `hsize hcap hb hz hseal` | `sys_i1_sealed` | `hb` (From/To bound the MIDs), `hz` (no `0:0`): `hz` follows from `GoodIDs` (SysHypsB `cons_sys_hz_of_goodIDs`); others are configuration |
-| `J`, `J'` (SystemCompose:369, SystemSealed:271, SystemReplay:192) | `sys_ingest_to_read_*` | GENUINE junction assumptions: they relate C09's abstract `hotLog` entry (shard, replica) to the store's state (`B ∈ hist s` / `blk ∈ ackedOf (Hst s)`); no model contains the store's `Bulk` gRPC handler (storeapi -> `Active.Append`), so nothing to derive them from |
+| `J`, `J'` (SystemCompose:369, SystemSealed:271, SystemReplay:195) | `sys_ingest_to_read_*` | (wave 4/5: see Consistency/SysJunction.lean - restated over the full-set shard and discharged from the transport premise in Proofs/SystemJunction.lean) originally junction assumptions: they relate C09's abstract `hotLog` entry (shard, replica) to the store's state (`B ∈ hist s` / `blk ∈ ackedOf (Hst s)`); no model contains the store's `Bulk` gRPC handler (storeapi -> `Active.Append`), so nothing to derive them from |
 | `I1`, `serve` | `sys_acked_found_partial`, `sys_served_found` | interface, discharged by the `sys_i1_*` theorems inside SV.Sys |
 | `hfirst` | `sys_ingest_to_read_active`, `Holds` | removed by `sys_i1_redelivered` given `hsame` |
 | `hh hlim hdesc hok hmax hne hall hans` | `sys_read` | C16/C05 hypotheses (`c16_e2e_spec_complete`) - other workers' topic |
@@ -34,7 +34,7 @@ namespace SV.Consistency
 
 /-! ## ExtBlind -/
 
-/-- textual copy of `SV.Sys.ExtBlind`, Proofs/SystemReplay.lean:24, generalised over the result type (`SV.Sys.ExtBlind dec`
+/-- textual copy of `SV.Sys.ExtBlind`, Proofs/SystemReplay.lean:26 (line numbers as of wave 5), generalised over the result type (`SV.Sys.ExtBlind dec`
 is `sysExtBlind dec` at `α = List SV.Collector.Meta`) -/
 def sysExtBlind {α : Type} (dec : SV.WPath.Bytes → α) : Prop :=
   ∀ b b', SV.WPath.stampMeta b 0 0 = SV.WPath.stampMeta b' 0 0 → dec b = dec b'
@@ -146,7 +146,7 @@ theorem cons_sys_extFree_of_extBlindShape (cd : SV.WPath.IdxCodec) (h : sysExtBl
 
 /-! ## hsame -/
 
-/-- textual copy of the hypothesis `hsame` of `SV.Sys.sys_i1_redelivered`, Proofs/SystemReplay.lean:154 -/
+/-- textual copy of the hypothesis `hsame` of `SV.Sys.sys_i1_redelivered`, Proofs/SystemReplay.lean:156 -/
 def sysHsame (h : List (List SV.Collector.Meta)) (m : SV.Collector.Meta) : Prop :=
   ∀ b ∈ h, ∀ m' ∈ b, m'.id = m.id → m'.tokens = m.tokens
 
@@ -267,7 +267,7 @@ theorem cons_sys_allToken_of_c10 (mid rid : Nat) (c : SV.Tok.TokCfg) (mp : SV.Bu
 
 /-! ## Covers -/
 
-/-- textual copy of `SV.Sys.Covers`, Proofs/SystemSealed.lean:72 -/
+/-- textual copy of `SV.Sys.Covers`, Proofs/SystemSealed.lean:74 -/
 def sysCovers (names : List SV.Collector.Bytes) (U : List (List (SV.Collector.Bytes × SV.C03.Tok))) (bytes : SV.Collector.Bytes) : Prop :=
   ∃ j fl tv, U[j]? = some fl ∧ tv ∈ fl ∧ tv.1 = bytes ∧ (names.drop j).headD [] = (SV.ActiveReach.splitTok bytes).1 ∧
     tv.2 = (SV.ActiveReach.splitTok bytes).2
